@@ -205,12 +205,12 @@ def decimal_contract():
 
     def out(c):
         a = wire.peek(c.st, c.value, 5)
-        return (5, SOpaque('decimal', wire.decimal_of(State.unpack_sint(a[1:5]), State.unpack_uint(a[0:1]))))
+        return (5, wire.mk_decimal(State.unpack_sint(a[1:5]), State.unpack_uint(a[0:1])))
 
     return Contract(DEC + 'decimal', [('value', T.bytes)], cases=[
         Case('five-octets', when=ok, returns=out),
         Case('too-short', when=lambda c: not ok(c), raises=struct.error),
-    ], trusted=True, doc='C05: scale octet + signed 32-bit unscaled value')
+    ], doc='C05: scale octet + signed 32-bit unscaled value')
 
 
 def register(reg):
@@ -232,4 +232,3 @@ def register(reg):
     reg.add(Contract(DEC + 'void', [('_', T.bytes | T.none)], cases=[Case('nothing', returns=lambda c: (0, None))]))
     reg.add(timestamp_contract())
     reg.add(decimal_contract())
-    reg.add(table_contract())
